@@ -337,6 +337,12 @@ def getAttributeDocstring (perClass : List (Option Doc)) : Doc :=
 def attributeDoc (mro : List ClassSrc) (name : Str) : Doc :=
   getAttributeDocstring (mro.map (fun c => scanClass c name))
 
+/-- a sequence of look-ups `(mro of the queried class, field name)` made one after the other: the
+    extractor is specified as a pure function, so the answers are the one-shot answers (the code's
+    `lru_cache`s must be invisible). -/
+def answerAll (queries : List (List ClassSrc × Str)) : List Doc :=
+  queries.map (fun q => attributeDoc q.1 q.2)
+
 /-! ### help precedence -/
 
 /-- `AttributeDocString.help_string` (docstring.py:34-43) -/
